@@ -1135,9 +1135,36 @@ class Explorer:
         cl = self.info.closure_phi((o[0], o[1])) if through_phis else self.info.closure((o[0], o[1]))
         return bool(cl & roots)
 
+    def _dominating_facts(self, env):
+        """exploration that starts in the middle of a function: the branch conditions on the single-predecessor chain above the start
+        block hold there (SSA values of the same iteration), so they are refined into the initial environment"""
+        f = self.f
+        b = self.start_block
+        for _ in range(16):
+            preds = f.blocks[b].preds
+            if len(preds) != 1:
+                break
+            p = preds[0]
+            t = f.blocks[p].term
+            if t.op == "br" and len(t.ops) == 3:
+                tb, fb = t.ops[2][1], t.ops[1][1]
+                if tb != fb and b in (tb, fb):
+                    try:
+                        envs = self.refine(t.ops[0], b == tb, env)
+                    except AnalysisBroken:
+                        envs = []
+                    if len(envs) == 1:
+                        env = envs[0]
+            if p == self.start_block or p == 0 and False:
+                break
+            b = p
+        return env
+
     def run(self):
         f = self.f
         env0 = dict(self.assume)
+        if self.start_block != 0 and getattr(self, "seed_dominating", False):
+            env0 = self._dominating_facts(env0)
         work = [(self.start_block, None, State(env0))]
         seen = {}
         per_block = {}
